@@ -399,6 +399,9 @@ namespace verif
         if (c.pick(4) == 0)
             return request_half(c, rep);
         RespSpec spec = respgen::make(c, true, 70000, true);
+        // one case in three answers through a clone of its writer, as every handler behind a Rest::Router
+        // does (derived from what was drawn, no choice consumed)
+        spec.via_clone = (spec.body.size() + spec.headers.size() + spec.cookies.size()) % 3 == 1;
         unsigned lim  = c.pick(12); // 0-4: limit variants for fixed responses
         rep.label(spec.streamed ? "streamed" : spec.file ? "served-file" : "fixed");
         rep.label("code=" + std::to_string(int(spec.code) / 100) + "xx");
